@@ -30,7 +30,8 @@ def grid_unit(S, E, m, n, form):
 
     def h(c):
         model = built(spec)
-        t0 = c.real("t0")
+        typed = form.startswith("int_")
+        t0 = 0.0 if typed else c.real("t0")
         x0 = arr(c, [c.intreal("x%d" % i, lo=0, hi=50) for i in range(S)])
         V = mat(c, [[c.intreal("v%d_%d" % (i, j), lo=-3, hi=3) for j in range(E)] for i in range(S)])
         # an arbitrary legal path
@@ -47,11 +48,15 @@ def grid_unit(S, E, m, n, form):
             X.append([X[-1][s] + V[s, idx[i]] for s in range(S)])
         J = [[1 if j == idx[i] else 0 for j in range(E)] for i in range(m)]
         # grid g0 = t0 < g1 < ... < gn, event times never exactly on a grid time
-        g = [t0]
-        for k in range(1, n + 1):
-            gk = c.real("g%d" % k)
-            c.assume(gk > g[-1])
-            g.append(gk)
+        if typed:
+            # typed grid: integer-typed requested times 0,1,..,n (list or int64 array) with initial time 0.0
+            g = [int(k) for k in range(n + 1)]
+        else:
+            g = [t0]
+            for k in range(1, n + 1):
+                gk = c.real("g%d" % k)
+                c.assume(gk > g[-1])
+                g.append(gk)
         for ti in ts:
             for gk in g[1:]:
                 c.assume(ti != gk if c.mode == "sym" else abs(ti - gk) > 1e-9)
@@ -65,13 +70,15 @@ def grid_unit(S, E, m, n, form):
             seen["finalT"] = finalT
             seen["exact"] = exact
             return Xa.copy(), Ja.copy(), Ta.copy(), dTa.copy()
-        if form == "list":
+        if form in ("list", "int_list"):
             grid = list(g)
         elif form == "tuple":
             grid = tuple(g)
+        elif form == "int_array":
+            grid = np.array(g, dtype=np.int64)
         else:
             grid = np.array(g, dtype=object if c.mode == "sym" else float)
-        model.initial_values = (x0, t0)
+        model.initial_values = (x0, np.float64(t0)) if typed else (x0, t0)
         if c.mode == "sym":
             model._x0 = x0
         with stubs.patched((model, "_jump", fake_jump)):
@@ -122,6 +129,8 @@ class C15(Check):
             us.append(grid_unit(1, 1, 2, 3, "tuple"))
             us.append(grid_unit(2, 2, 0, 2, "list"))      # no event fires at all (started in an absorbing state)
             us.append(grid_unit(2, 1, 1, 2, "array"))
+            us.append(grid_unit(2, 2, 2, 2, "int_array"))
+            us.append(grid_unit(1, 1, 2, 2, "int_list"))
         else:
             for form in ("list", "tuple", "array"):
                 us.append(grid_unit(2, 2, 3, 3, form))
@@ -129,6 +138,8 @@ class C15(Check):
             us.append(grid_unit(3, 3, 3, 2, "array"))
             us.append(grid_unit(1, 1, 3, 3, "list"))
             us.append(grid_unit(2, 1, 3, 3, "list"))
+            us.append(grid_unit(2, 2, 3, 3, "int_array"))
+            us.append(grid_unit(2, 2, 3, 2, "int_list"))
             for S, E in ((1, 1), (2, 2), (3, 2)):
                 us.append(grid_unit(S, E, 0, 2, "list"))
                 us.append(grid_unit(S, E, 0, 3, "array"))
